@@ -1,6 +1,7 @@
 package harness
 
 import (
+	"bytes"
 	"context"
 	"errors"
 	"fmt"
@@ -89,8 +90,11 @@ func (m *Monitor) enter(store, op string, node int) (kind string) {
 	for _, f := range m.faults {
 		if f.Store == store && f.Op == op && f.Node == node && f.Occur == occ {
 			kind = f.Kind
-			m.fired = append(m.fired, f)
 			m.firedK[f.Kind]++
+			if f.Kind == "raced" {
+				continue // not a failure: another client stores the same content first
+			}
+			m.fired = append(m.fired, f)
 		}
 	}
 	m.mu.Unlock()
@@ -241,6 +245,13 @@ func (s *SimStore) Push(ctx context.Context, d ocispec.Descriptor, r io.Reader) 
 	if k == "before" {
 		s.M.leave(s.Name, "Push", n, errInjected)
 		return fmt.Errorf("%s push node %d: %w", s.Name, n, errInjected)
+	}
+	if k == "raced" && n >= 0 {
+		// another client of the destination stores the same content between this
+		// copy's Exists probe and its Push: the Push below is refused as already existing
+		simrt.Observe(func() {
+			s.Inner.(content.Pusher).Push(ctx, d, bytes.NewReader(s.M.g.Nodes[n].Data))
+		})
 	}
 	err := s.Inner.(content.Pusher).Push(ctx, d, r)
 	if err == nil && k == "after" {
